@@ -401,7 +401,9 @@ def render_nodes(nodes, sp: Spelling, depth: int, out: list):
     pad = " " * (sp.indent * depth)
     tw = "  " if sp.trailing_ws else ""
     for n in nodes:
-        if sp.comments:
+        # a comment line directly before a top-level `META:` makes the parser read META as an ordinary
+        # block (parser quirk, territory of C02); the respeller must not change content, so it never does that
+        if sp.comments and not (depth == 0 and n[0] == "B" and n[1] == "META"):
             out.append(pad + "// note")
         for _ in range(sp.blank):
             out.append("")
@@ -962,8 +964,6 @@ def deep_fingerprint(obj, _depth=0):
         return (type(obj).__name__, tuple(deep_fingerprint(x, _depth + 1) for x in obj))
     if isinstance(obj, dict):
         return ("dict", tuple((deep_fingerprint(k, _depth + 1), deep_fingerprint(v, _depth + 1)) for k, v in obj.items()))
-    if hasattr(obj, "__dataclass_fields__"):
+    if hasattr(obj, "__dataclass_fields__") and not isinstance(obj, type):
         return (type(obj).__name__, tuple((f, deep_fingerprint(getattr(obj, f), _depth + 1)) for f in obj.__dataclass_fields__))
-    if hasattr(obj, "__dict__"):
-        return (type(obj).__name__, tuple((k, deep_fingerprint(v, _depth + 1)) for k, v in sorted(vars(obj).items())))
     return (type(obj).__name__, repr(obj))
